@@ -44,6 +44,24 @@ func buildWireFile(c wireCase) ([]byte, ref.FileLayout, ref.EncStats, error) {
 	enc := ref.Encoder{C: &ref.Choices{Bits: c.Choices}}
 	fs := ref.FileSpec{Schema: []byte(ref.Render(c.Schema, nil)), Codec: c.Codec}
 	copy(fs.Sync[:], c.Sync)
+	// the header as other writers may lay it out (a function of the case's sync
+	// bytes): metadata in two map blocks, blocks in the sized form, other entry
+	// order, additional application metadata
+	if len(c.Sync) > 3 {
+		switch c.Sync[3] % 10 {
+		case 4:
+			fs.MetaSplit = true
+		case 5:
+			fs.MetaSized = true
+		case 6:
+			fs.MetaSplit, fs.MetaSized = true, true
+		case 7:
+			fs.MetaReverse = true
+			fs.ExtraMeta = map[string][]byte{"app.writer": []byte("other-implementation 1.0"), "avro.other": {}}
+		case 8:
+			fs.MetaSplit, fs.MetaReverse = true, true
+		}
+	}
 	i := 0
 	bi := 0
 	for i < len(c.Datums) {
